@@ -974,6 +974,16 @@ impl<P: Pid> World for Ep<P> {
                         }
                     }
                 }
+                // ... including the acknowledgements it owes for a resumed session
+                for &k in &al.peer_acks {
+                    for &id in &al.peer_ack_ids {
+                        v.push(Act::PAck { kind: k, id, err: false, defer: false, nomatch: false });
+                    }
+                }
+                // a role-Any object that acts as the server here must treat a CONNACK as what it is
+                if c.role == RoleK::Any && al.second_connack {
+                    v.push(Act::PConnack(0));
+                }
             }
             // ... and the library lets it hand over QoS>0 publishes of a persistent session already
             // (they are stored and go out behind the CONNACK)
